@@ -30,6 +30,9 @@ type rtCase struct {
 	Additional map[string][]string `json:"additional"` // file -> node names
 	Level      map[string]string   `json:"level"`      // fid -> level (default violation)
 	RangeStyle int                 `json:"rangeStyle"`
+	// IdStyle 1: hierarchical node ids, the way AMF writes them (the id of k1 extends the id of t1 with "/k1", t2 sits
+	// under k1): whether a node is listed in a file's location information is a matter of ITS id only
+	IdStyle int `json:"idStyle,omitempty"`
 	CtxRef     int                 `json:"ctxRef"`          // 0: absolute ids; 1, 2: ids through a context document named by reference
 	Stripped   bool                `json:"compareStripped"` // also validate the same graph without source maps
 	Messages   map[string]any      `json:"messages"`        // fid -> message value written in the profile (any YAML value)
@@ -234,6 +237,13 @@ func runReportTree(c rtCase) (o rtObs) {
 	}
 	graph = withSourceMaps(graph, c)
 	data, _ := json.Marshal(graph)
+	if c.IdStyle == 1 {
+		nest := strings.NewReplacer(nodeNS+"t2", nodeNS+"t1/k1/t2", nodeNS+"k1", nodeNS+"t1/k1", nodeNS+"k2", nodeNS+"t1/k2")
+		data = []byte(nest.Replace(string(data)))
+		for i := range o.GraphIDs {
+			o.GraphIDs[i] = nest.Replace(o.GraphIDs[i])
+		}
+	}
 	if c.CtxRef > 0 {
 		// node ids written as compact IRIs through a context kept in a separate document, named by reference; that
 		// document sits at one location for the whole process and is rewritten for every case (two namespaces in
